@@ -177,11 +177,15 @@ pub struct KadScenario {
     /// `max_provider_keys` of L's store; a second `start_providing` then uses a second key, which the store refuses
     #[serde(default)]
     pub provider_keys_limit: Option<usize>,
+    /// every connection of L is lost (link cut) between the first and the second operation: the second one has to dial
+    /// peers Kademlia already talked to
+    #[serde(default)]
+    pub cut_between: bool,
 }
 
 impl KadScenario {
     fn base(op: OpKind, quorum: Q, faults: [Fault; 3]) -> Self {
-        KadScenario { op, quorum, faults, topo: Topo::Star, preconnect: false, out_limit: None, kills: vec![], seeded: true, extra_op: None, local_copy: false, provider_keys_limit: None }
+        KadScenario { op, quorum, faults, topo: Topo::Star, preconnect: false, out_limit: None, kills: vec![], seeded: true, extra_op: None, local_copy: false, provider_keys_limit: None, cut_between: false }
     }
 
     /// the operations the user of L issues, in order
@@ -206,7 +210,9 @@ impl KadScenario {
             // connections are rejected; with them the limit is already reached when Kademlia asks for a dial
             v.insert(if self.preconnect { "local-connection-limit-reached-before-dial" } else { "local-connection-limit" }.into());
         }
-        if self.extra_op.is_some() {
+        if self.cut_between {
+            v.insert("second-operation-after-connection-loss".into());
+        } else if self.extra_op.is_some() {
             v.insert("two-operations".into());
         }
         if !self.kills.is_empty() {
@@ -371,7 +377,7 @@ fn contains(hay: &[u8], needle: &[u8]) -> bool {
 impl KadScenario {
     /// lazy program: the operations, then the kills
     fn program_len(&self) -> usize {
-        self.ops().len() + self.kills.len()
+        self.ops().len() + self.kills.len() + usize::from(self.cut_between)
     }
 
     /// number of remotes on whose link L put the published data (record value / provider record)
@@ -542,10 +548,20 @@ impl Scenario for KadScenario {
 
     fn lazy_apply(&self, st: &mut St, w: &mut World, _k: usize) {
         let ops = self.ops();
-        if st.pc < ops.len() {
-            let (op, q) = ops[st.pc];
-            let _ = st.l_cmd.send(LCmd::Run(st.pc, op, q, st.r_peer.to_vec()));
-        } else if let Some(n) = st.r_node[self.kills[st.pc - ops.len()]] {
+        // program: first operation, [cut of all of L's links], further operations, kills
+        let cut_at = if self.cut_between { Some(1) } else { None };
+        let shift = usize::from(self.cut_between && st.pc > 1);
+        if Some(st.pc) == cut_at {
+            for k in 0..w.links.len() {
+                if w.links[k].a == 0 || w.links[k].b == 0 {
+                    w.cut_link(k);
+                }
+            }
+        } else if st.pc - shift < ops.len() {
+            let idx = st.pc - shift;
+            let (op, q) = ops[idx];
+            let _ = st.l_cmd.send(LCmd::Run(idx, op, q, st.r_peer.to_vec()));
+        } else if let Some(n) = st.r_node[self.kills[st.pc - shift - ops.len()]] {
             w.kill_node(n);
         }
         st.pc += 1;
@@ -635,6 +651,10 @@ impl Scenario for KadScenario {
                 let mut sent = sent;
                 for k in &self.kills {
                     sent.insert(*k);
+                }
+                // the same holds for a link cut by a lazy action (a deviation may place the cut inside the first operation)
+                if self.cut_between {
+                    sent.extend(0..3);
                 }
                 if sent.len() < need {
                     v.push(Viol::new(
@@ -836,6 +856,18 @@ pub fn scenarios(thorough: bool) -> Vec<(KadScenario, u8)> {
         s.extra_op = Some(OpKind::StartProviding);
         s.provider_keys_limit = Some(1);
         v.push((s, 1));
+    }
+    // 8c. a second operation after every connection of L was lost: Kademlia has to dial peers it already talked to
+    for (a, b) in [(OpKind::FindNode, OpKind::FindNode), (OpKind::GetRecord, OpKind::PutRecord), (OpKind::PutRecord, OpKind::GetProviders), (OpKind::StartProviding, OpKind::GetRecord)] {
+        for faults in [ok, [Fault::Dead, Fault::Ok, Fault::Ok]] {
+            for topo in [Topo::Star, Topo::Chain] {
+                let mut s = KadScenario::base(a, Q::One, faults);
+                s.topo = topo;
+                s.extra_op = Some(b);
+                s.cut_between = true;
+                v.push((s, 1));
+            }
+        }
     }
     if thorough {
         // 9. all fault assignments from {ok, no-address, undialable, dead}^3
